@@ -123,6 +123,7 @@ func runDyn(ctx *Ctx, sc *Scn) (evs []trace.Ev, note string) {
 		return &item{idx: i, h: hs[i]}
 	}
 	sel := false
+	idle := false // the previous step was a draw too (coverage only)
 	for _, op := range sc.Ops {
 		pan := ""
 		before := d.Cursor()
@@ -146,11 +147,15 @@ func runDyn(ctx *Ctx, sc *Scn) (evs []trace.Ev, note string) {
 					kids = append(kids, []int{id, ch.Origin.Row, int(ch.Surface.Size.Height)})
 				}
 			}
-			ctx.Cov.dynDraw(sc, op, len(hs), sel, kids, int(d.Cursor()))
+			ctx.Cov.dynDraw(sc, op, len(hs), sel, kids, int(d.Cursor()), int(before), idle)
 			evs = append(evs, trace.Ev{"ev": "dyn-draw", "op": "draw", "n": len(hs), "hs": append([]int{}, hs...), "gap": sc.Gap,
 				"W": op.W, "H": op.H, "idx": int(d.Cursor()), "kids": kids, "sel": sel, "pan": pan})
-			sel = false
+			// a draw that itself moves the selection (the selected item is gone) is a selection
+			// change too: the draw that follows it has to show the newly selected item
+			sel = d.Cursor() != before
+			idle = true
 		} else {
+			idle = false
 			guard(&pan, func() {
 				switch op.K {
 				case "next":
@@ -158,10 +163,13 @@ func runDyn(ctx *Ctx, sc *Scn) (evs []trace.Ev, note string) {
 				case "prev":
 					d.PrevItem()
 				case "setcursor":
-					// domain: the application selects an item that exists
+					// an item that exists
 					if len(hs) > 0 {
 						d.SetCursor(uint(op.A % len(hs)))
 					}
+				case "setcursorabs":
+					// any index, also one beyond the last item
+					d.SetCursor(uint(op.A))
 				case "keyj":
 					d.CaptureEvent(vaxis.Key{Keycode: 'j', Text: "j"})
 				case "keyk":
@@ -177,13 +185,8 @@ func runDyn(ctx *Ctx, sc *Scn) (evs []trace.Ev, note string) {
 				case "pending":
 					d.SetPendingScroll(op.A)
 				case "replace":
-					// domain: the application never removes the selected item without moving the
-					// selection first, so at least cursor+1 items remain (a builder-driven list
-					// cannot know that items went away)
+					// any replacement, also one that removes the selected item
 					hs = append([]int(nil), op.Hs...)
-					for uint(len(hs)) <= d.Cursor() && len(hs) < 64 {
-						hs = append(hs, 1)
-					}
 				default:
 					panic("harness: unknown op " + op.K)
 				}
